@@ -29,6 +29,10 @@
 (*   blocked accounts that may not receive funds (sequence of names)          *)
 (*   supply  total supply per denom (offset so that it equals the sum of   *)
 (*           the tracked balances initially)                               *)
+(* The denoms of bal / supply are the closed universe: the standard coin,  *)
+(* the tokens, the ODD coins (ordinary coins of an unusual shape, e.g.     *)
+(* "voucher-1", which parses as a liquidity denom), and one liquidity      *)
+(* denom per coin a pool may be opened on (tokens and odd coins).          *)
 (***************************************************************************)
 EXTENDS Integers, Sequences, FiniteSets, TLC, Util, Json, IOUtils, CoinswapClauses
 
@@ -36,6 +40,8 @@ CONSTANTS
   Users,        \* user accounts
   Tokens,       \* non-standard denoms (each may get one pool)
   Std,          \* the standard denom
+  Odd,          \* further plain coins of the closed universe that users hold (e.g. "voucher-1": an
+                \* ordinary coin whose denom is SHAPED like a liquidity denom); anybody may open a pool on one
   RecordHist    \* BOOLEAN: keep the event history (generator configs)
 
 VARIABLES st, ev, gh, hist
@@ -49,7 +55,14 @@ BlockedOf(s) == {s.blocked[i] : i \in DOMAIN s.blocked}
 
 LptOf(n) == "lpt-" \o ToString(n)
 EscOf(lpt) == "esc-" \o lpt
+(* Denom kinds.  The code has TWO notions of "liquidity denom":
+     validation.go ValidateToken / ValidateInput / ValidateOutput:  strings.HasPrefix(denom, "lpt")
+     utils.go ParseLptDenom (ValidateWithdrawLiquidity):            <anything>-<number>, exactly one "-"
+   On the denoms the drivers use: IsLpt = the first, ParsesLpt = the second ("voucher-N", an
+   ordinary bank coin, parses as a liquidity denom but is none). *)
 IsLpt(d) == d \in {LptOf(n) : n \in 1..9}
+ShareShaped(d) == d \in {"voucher-" \o ToString(n) : n \in 1..9}
+ParsesLpt(d) == IsLpt(d) \/ ShareShaped(d)
 
 NoEv == [name |-> "Init", who |-> "", to |-> "", denom |-> "", tok |-> "",
          inDenom |-> "", outDenom |-> "", amt |-> 0, amt2 |-> 0, min1 |-> 0,
@@ -143,7 +156,7 @@ DoAddLiquidity(s, who, denom, exact, maxTok, minLiq, deadline) ==
 
 (* msg_server.go RemoveLiquidity + keeper.go RemoveLiquidity *)
 DoRemoveLiquidity(s, who, lpt, amt, minStd, minTok, deadline) ==
-  IF amt <= 0 \/ minStd < 0 \/ minTok < 0 \/ ~IsLpt(lpt) THEN Fail(s, "validate")
+  IF amt <= 0 \/ minStd < 0 \/ minTok < 0 \/ ~ParsesLpt(lpt) THEN Fail(s, "validate")
   ELSE IF s.now > deadline THEN Fail(s, "deadline")
   ELSE IF PoolByLpt(s, lpt) = {} THEN Fail(s, "no_pool")
   ELSE
@@ -335,8 +348,25 @@ WellFormed(s) ==
     /\ s.pools[p].esc \in DOMAIN s.bal /\ s.pools[p].lpt \in DOMAIN s.supply
     /\ p \in DOMAIN s.bal[s.pools[p].esc] /\ s.std \in DOMAIN s.bal[s.pools[p].esc]
 
+MsgNames == {"AddLiquidity", "RemoveLiquidity", "AddUnilateral", "RemoveUnilateral", "Swap"}
+(* the denom-valued fields of a message *)
+DenomFields(e) ==
+  CASE e.name \in {"AddLiquidity", "RemoveLiquidity", "Donate"} -> {e.denom}
+    [] e.name \in {"AddUnilateral", "RemoveUnilateral"} -> {e.denom, e.tok}
+    [] e.name = "Swap" -> {e.inDenom, e.outDenom}
+    [] OTHER -> {}
+(* A message naming a denom outside the tracked universe (a coin nobody holds and no pool is
+   named after: "BTC", "lpt-9") or an account outside it: every handler rejects it today - an
+   unknown pool, an unpayable deposit.  Stated once, here, so that Apply is total. *)
+Untracked(s, e) ==
+  \/ \E d \in DenomFields(e) : d \notin DOMAIN s.supply
+  \/ e.name \in MsgNames \cup {"Donate"} /\ e.who \notin DOMAIN s.bal
+  \/ e.name = "Swap" /\ e.to \notin DOMAIN s.bal
+
 Apply(s, e) ==
   IF ~WellFormed(s) THEN Fail(s, "malformed_registry") ELSE
+  IF "" \in DenomFields(e) THEN Fail(s, "validate") ELSE
+  IF Untracked(s, e) THEN Fail(s, "untracked") ELSE
   CASE e.name = "AddLiquidity" -> DoAddLiquidity(s, e.who, e.denom, e.amt, e.amt2, e.min1, e.deadline)
     [] e.name = "RemoveLiquidity" -> DoRemoveLiquidity(s, e.who, e.denom, e.amt, e.min1, e.min2, e.deadline)
     [] e.name = "AddUnilateral" -> DoAddUnilateral(s, e.who, e.denom, e.tok, e.amt, e.min1, e.deadline)
@@ -621,29 +651,41 @@ X02_DonateFrame(s, e, t) ==
     /\ (e.to # e.who => /\ Dl(s, t, e.who, e.denom) = 0 - e.amt
                         /\ Dl(s, t, e.to, e.denom) = e.amt)
 
+(* a one-sided message that succeeds names one of the two reserves of its pool (not some other
+   coin the escrow happens to hold: a foreign donation, a share token) *)
+X02_OneSidedReserve(s, e) ==
+  (e.name \in {"AddUnilateral", "RemoveUnilateral"} /\ e.ok) => e.tok \in {s.std, e.denom}
+
 -----------------------------------------------------------------------------
 (* Model-checking universe *)
 CONSTANTS InitStd, InitTok, CFee, FeeNum, FeeDen, UniNum, UniDen, TaxNum, TaxDen,
           Amts, Mins, Liqs, Donations, DlOffs, MaxNow, Senders, Recipients, MaxSteps,
           WithUni,
-          DonateAlso     \* further donation targets (module account, blocked fee pool)
+          DonateAlso,    \* further donation targets (module account, blocked fee pool)
+          InitOdd,       \* what every user holds of each odd coin
+          WrongKind      \* BOOLEAN: every denom-valued field of every message (and donations) ranges over
+                         \* EVERY denom: the standard coin, tokens, odd coins, liquidity denoms, strange ones
 
-NTok == Cardinality(Tokens)
-Lpts == {LptOf(n) : n \in 1..NTok}
+(* every non-liquidity coin other than the standard one may get a pool: the tokens and the odd coins *)
+Poolable == Tokens \cup Odd
+NPool == Cardinality(Poolable)
+Lpts == {LptOf(n) : n \in 1..NPool}
 Escs == {EscOf(l) : l \in Lpts}
 Accts == Users \cup Escs \cup {MOD, FEEP}
-Denoms == {Std} \cup Tokens \cup Lpts
+Denoms == {Std} \cup Poolable \cup Lpts
+(* valid denoms outside the tracked universe: nobody holds any, no pool is named after them
+   (different case; a liquidity denom whose sequence is never reached) *)
+Strange == {"BTC", "lpt-9"}
+AnyDenoms == Denoms \cup Strange
 
+InitOf(d) == IF d = Std THEN InitStd ELSE IF d \in Tokens THEN InitTok ELSE IF d \in Odd THEN InitOdd ELSE 0
 Init0 ==
   [now |-> 1, seq |-> 1, std |-> Std, blocked |-> <<FEEP, MOD>>,
    params |-> [feeNum |-> FeeNum, feeDen |-> FeeDen, uniNum |-> UniNum, uniDen |-> UniDen,
                taxNum |-> TaxNum, taxDen |-> TaxDen, fee |-> CFee, feeDenom |-> Std],
    pools |-> EmptyF,
-   bal |-> [a \in Accts |-> [d \in Denoms |->
-              IF a \in Users THEN (IF d = Std THEN InitStd ELSE IF d \in Tokens THEN InitTok ELSE 0)
-              ELSE 0]],
-   supply |-> [d \in Denoms |->
-              Cardinality(Users) * (IF d = Std THEN InitStd ELSE IF d \in Tokens THEN InitTok ELSE 0)]]
+   bal |-> [a \in Accts |-> [d \in Denoms |-> IF a \in Users THEN InitOf(d) ELSE 0]],
+   supply |-> [d \in Denoms |-> Cardinality(Users) * InitOf(d)]]
 
 Init == st = Init0 /\ ev = NoEv /\ gh = GhostInit /\ hist = <<>>
 
@@ -657,32 +699,40 @@ Step(e) ==
 
 Ev(name, who) == [NoEv EXCEPT !.name = name, !.who = who]
 Deadlines == {st.now - 1 + k : k \in DlOffs}
+(* what the denom-valued fields range over *)
+TradeDenoms == {Std} \cup Poolable
+F_Pool == IF WrongKind THEN AnyDenoms ELSE Poolable        \* max_token, counterparty_denom
+F_Lpt == IF WrongKind THEN AnyDenoms ELSE Lpts             \* withdraw_liquidity
+F_Trade == IF WrongKind THEN AnyDenoms ELSE TradeDenoms    \* input / output coin
+F_One(d) == IF WrongKind THEN AnyDenoms ELSE {d, Std}      \* exact_token / min_token of the one-sided messages
+F_Don == IF WrongKind THEN Denoms ELSE TradeDenoms         \* plain bank sends to the escrows
+HopsOf(i, o) == IF i # Std /\ o # Std THEN 2 ELSE 1
 
 AddLiquidity ==
-  \E who \in Senders, d \in Tokens, x \in Amts, m \in Amts, lo \in Mins, dl \in Deadlines :
+  \E who \in Senders, d \in F_Pool, x \in Amts, m \in Amts, lo \in Mins, dl \in Deadlines :
     Step([Ev("AddLiquidity", who) EXCEPT !.denom = d, !.amt = x, !.amt2 = m, !.min1 = lo, !.deadline = dl])
 RemoveLiquidity ==
-  \E who \in Senders, l \in Lpts, x \in Liqs, lo1 \in Mins, lo2 \in Mins, dl \in Deadlines :
+  \E who \in Senders, l \in F_Lpt, x \in Liqs, lo1 \in Mins, lo2 \in Mins, dl \in Deadlines :
     Step([Ev("RemoveLiquidity", who) EXCEPT !.denom = l, !.amt = x, !.min1 = lo1, !.min2 = lo2, !.deadline = dl])
 AddUnilateral ==
   WithUni /\
-  \E who \in Senders, d \in Tokens, x \in Amts, lo \in Mins, dl \in Deadlines :
-    \E tk \in {d, Std} :
+  \E who \in Senders, d \in F_Pool, x \in Amts, lo \in Mins, dl \in Deadlines :
+    \E tk \in F_One(d) :
       Step([Ev("AddUnilateral", who) EXCEPT !.denom = d, !.tok = tk, !.amt = x, !.min1 = lo, !.deadline = dl])
 RemoveUnilateral ==
   WithUni /\
-  \E who \in Senders, d \in Tokens, x \in Liqs, lo \in Mins \ {0}, dl \in Deadlines :
-    \E tk \in {d, Std} :
+  \E who \in Senders, d \in F_Pool, x \in Liqs, lo \in Mins \ {0}, dl \in Deadlines :
+    \E tk \in F_One(d) :
       Step([Ev("RemoveUnilateral", who) EXCEPT !.denom = d, !.tok = tk, !.amt = x, !.min1 = lo, !.deadline = dl])
 Swap ==
-  \E who \in Senders, to \in Recipients, i \in {Std} \cup Tokens, o \in {Std} \cup Tokens,
+  \E who \in Senders, to \in Recipients, i \in F_Trade, o \in F_Trade,
      x \in Amts, y \in Amts, buy \in BOOLEAN, dl \in Deadlines :
-    /\ i # o
+    /\ (i # o \/ WrongKind)
     /\ Step([Ev("Swap", who) EXCEPT !.to = to, !.inDenom = i, !.outDenom = o, !.amt = x, !.amt2 = y,
                !.isBuy = buy, !.deadline = dl,
                !.hops = IF i # Std /\ o # Std THEN 2 ELSE 1])
 Donate ==
-  \E who \in Senders, to \in Escs \cup DonateAlso, d \in {Std} \cup Tokens, a \in Donations :
+  \E who \in Senders, to \in Escs \cup DonateAlso, d \in F_Don, a \in Donations :
     Step([Ev("Donate", who) EXCEPT !.to = to, !.denom = d, !.amt = a])
 EndBlock ==
   /\ st.now < MaxNow
@@ -704,21 +754,23 @@ SpecBounded == Init /\ [][NextBounded]_vars
    do not shape the arithmetic (sender, recipient, deadline, minima) are drawn
    with RandomElement and only denominations and amounts are enumerated. *)
 Rejects(h) == Cardinality({i \in DOMAIN h : ~h[i].ok})
+GenDonate(who) ==
+  \E d \in F_Don, a \in Donations :
+    Step([Ev("Donate", who) EXCEPT !.to = RandomElement(Escs \cup DonateAlso), !.denom = d, !.amt = a])
 GenActs(who, to, dl, lo, lo2) ==
-  \/ \E d \in Tokens, x \in Amts, m \in Amts :
+  \/ \E d \in Poolable, x \in Amts, m \in Amts :
        Step([Ev("AddLiquidity", who) EXCEPT !.denom = d, !.amt = x, !.amt2 = m, !.min1 = lo, !.deadline = dl])
   \/ \E l \in Lpts, x \in Liqs :
        Step([Ev("RemoveLiquidity", who) EXCEPT !.denom = l, !.amt = x, !.min1 = lo, !.min2 = lo2, !.deadline = dl])
-  \/ \E d \in Tokens, x \in Amts : \E tk \in {d, Std} :
+  \/ \E d \in Poolable, x \in Amts : \E tk \in {d, Std} :
        Step([Ev("AddUnilateral", who) EXCEPT !.denom = d, !.tok = tk, !.amt = x, !.min1 = lo, !.deadline = dl])
-  \/ \E d \in Tokens, x \in Liqs : \E tk \in {d, Std} :
+  \/ \E d \in Poolable, x \in Liqs : \E tk \in {d, Std} :
        Step([Ev("RemoveUnilateral", who) EXCEPT !.denom = d, !.tok = tk, !.amt = x, !.min1 = lo + 1, !.deadline = dl])
-  \/ \E i \in {Std} \cup Tokens, o \in {Std} \cup Tokens, x \in Amts, y \in Amts, buy \in BOOLEAN :
+  \/ \E i \in TradeDenoms, o \in TradeDenoms, x \in Amts, y \in Amts, buy \in BOOLEAN :
        /\ i # o
        /\ Step([Ev("Swap", who) EXCEPT !.to = to, !.inDenom = i, !.outDenom = o, !.amt = x, !.amt2 = y,
-                  !.isBuy = buy, !.deadline = dl, !.hops = IF i # Std /\ o # Std THEN 2 ELSE 1])
-  \/ \E d \in {Std} \cup Tokens, a \in Donations :
-       Step([Ev("Donate", who) EXCEPT !.to = RandomElement(Escs \cup DonateAlso), !.denom = d, !.amt = a])
+                  !.isBuy = buy, !.deadline = dl, !.hops = HopsOf(i, o)])
+  \/ GenDonate(who)
   \/ EndBlock
 GenNext ==
   /\ GenActs(RandomElement(Senders), RandomElement(Recipients), RandomElement(Deadlines),
@@ -729,6 +781,79 @@ GenDepth == atoi(IOEnv.GEN_DEPTH)
 GenConstraint ==
   /\ Len(hist) <= GenDepth
   /\ (Len(hist) = GenDepth) => PrintT(<<"BEHAVIOUR", ToJson(hist)>>)
+
+(***************************************************************************)
+(* Second generator mode: NEGATIVE PROBING.  The prefix is an ordinary     *)
+(* behaviour in which plain bank sends to the escrows - of every denom:    *)
+(* foreign tokens, odd coins, liquidity tokens - are frequent (every       *)
+(* fourth step) and pools are opened on the odd coins too.  The deep state *)
+(* it reaches is then probed with a TAIL of messages that the              *)
+(* specification REJECTS: every message type, every denom-valued field     *)
+(* drawn from every kind of denom (often one that the pool's escrow or the *)
+(* sender really holds: an identifier that belongs to another object),     *)
+(* every role, bounds mostly wide open, deadlines mostly valid - so that   *)
+(* code which wrongly accepts one of them goes through with it and is      *)
+(* judged by the clauses.  A rejected message changes nothing, so the      *)
+(* whole tail is computed against the one state reached (no stepping); the *)
+(* real code executes it in one block, followed by the driver's epilogue   *)
+(* (withdraw everything, probe the emptied pools, fund them again), which  *)
+(* is computed from the REAL state.                                        *)
+(***************************************************************************)
+GenNextP ==
+  /\ IF RandomElement(1..4) = 1
+     THEN GenDonate(RandomElement(Senders))
+     ELSE GenActs(RandomElement(Senders), RandomElement(Recipients), RandomElement(Deadlines),
+                  RandomElement(Mins), RandomElement(Mins))
+  /\ (ev'.ok \/ 4 * (Rejects(hist) + 1) <= Len(hist) + 1)
+GenSpecP == Init /\ [][GenNextP]_vars
+
+Wt(seq) == seq[RandomElement(1..Len(seq))]                 \* weighted choice
+HeldBy(s, a) == {d \in DOMAIN s.bal[a] : s.bal[a][d] > 0}
+ProbeDenoms(s) == DOMAIN s.supply \cup Strange
+PickPool(s) ==
+  IF DOMAIN s.pools = {} \/ RandomElement(1..4) = 1 THEN RandomElement(ProbeDenoms(s))
+  ELSE RandomElement(DOMAIN s.pools)
+(* a denom for a field that names one side of a pool / a share: often one that the account really holds *)
+PickHeld(s, a) ==
+  IF a \in DOMAIN s.bal /\ HeldBy(s, a) # {} /\ RandomElement(1..2) = 1 THEN RandomElement(HeldBy(s, a))
+  ELSE RandomElement(ProbeDenoms(s))
+EscOrNone(s, p) == IF p \in DOMAIN s.pools THEN s.pools[p].esc ELSE ""
+RandProbe(s) ==
+  LET who == RandomElement(Senders)
+      dl == Wt(<<s.now + 1, s.now + 1, s.now + 1, s.now + 1, s.now, s.now - 1>>)
+      lo == Wt(<<0, 0, 0, 1, 4>>)
+      x == RandomElement(Amts \cup Liqs)
+      y == RandomElement(Amts)
+      p == PickPool(s)
+      k == RandomElement(1..5)
+  IN CASE k = 1 ->
+            [Ev("AddLiquidity", who) EXCEPT !.denom = p, !.amt = x, !.amt2 = y, !.min1 = lo, !.deadline = dl]
+       [] k = 2 ->
+            [Ev("RemoveLiquidity", who) EXCEPT !.denom = PickHeld(s, who), !.amt = x, !.min1 = lo, !.min2 = 0,
+                                                !.deadline = dl]
+       [] k = 3 ->
+            [Ev("AddUnilateral", who) EXCEPT !.denom = p, !.tok = PickHeld(s, EscOrNone(s, p)), !.amt = x,
+                                              !.min1 = lo, !.deadline = dl]
+       [] k = 4 ->
+            [Ev("RemoveUnilateral", who) EXCEPT !.denom = p, !.tok = PickHeld(s, EscOrNone(s, p)), !.amt = x,
+                                                 !.min1 = lo + 1, !.deadline = dl]
+       [] OTHER ->
+            LET i == RandomElement(ProbeDenoms(s))
+                o == RandomElement(ProbeDenoms(s))
+            IN [Ev("Swap", who) EXCEPT !.to = RandomElement(Recipients), !.inDenom = i, !.outDenom = o,
+                                       !.amt = x, !.amt2 = y, !.isBuy = RandomElement(BOOLEAN), !.deadline = dl,
+                                       !.hops = HopsOf(i, o)]
+RECURSIVE ProbeTail(_, _)
+ProbeTail(s, n) ==
+  IF n = 0 THEN <<>>
+  ELSE LET e == RandProbe(s)
+           r == Apply(s, e)
+       IN (IF r.ok THEN <<>> ELSE <<[e EXCEPT !.ok = FALSE, !.panic = r.panic]>>) \o ProbeTail(s, n - 1)
+ProbeN == 14          \* candidates drawn per behaviour (the accepted ones are dropped)
+GenConstraintP ==
+  /\ Len(hist) <= GenDepth
+  /\ (Len(hist) = GenDepth /\ RandomElement(1..10) = 1)
+       => PrintT(<<"BEHAVIOUR", ToJson(hist \o ProbeTail(st, ProbeN))>>)
 
 -----------------------------------------------------------------------------
 (* Clauses in checkable form *)
@@ -757,6 +882,7 @@ Act_X02_RoundTripNoGain == [][X02_RoundTripNoGain(st, ev', st', gh)]_vars
 Act_X02_BlockedUntouched == [][X02_BlockedUntouched(st, ev', st')]_vars
 Act_X02_ModuleOnlyGifts == [][X02_ModuleOnlyGifts(st', gh')]_vars
 Act_X02_DonateFrame == [][X02_DonateFrame(st, ev', st')]_vars
+Act_X02_OneSidedReserve == [][X02_OneSidedReserve(st, ev')]_vars
 
 (* the absolute time never matters (deadlines are chosen relative to it) *)
 View == [st EXCEPT !.now = 0]
